@@ -241,3 +241,253 @@ package grammar
 //@   ensures[C19] heap(ghost.out)[wid(w)] == old(heap(ghost.out)[wid(w)]) ++ Render(box[*CollectionExpression](expr), indent, level)
 //@   decreases astSize(box[*CollectionExpression](expr))
 //@   assigns ghost.out@wid(w)
+
+// ---- C15 / C16 / C07 / C04: the semantic actions build the prescribed nodes ---------
+
+//@ func current.onInput2(c, expr) (res, err)
+//@   ensures[C15] res == expr && err == nil
+//@   assigns nothing
+
+//@ func current.onInput17(c, expr) (res, err)
+//@   ensures[C15] res == expr && err == nil
+//@   assigns nothing
+
+//@ func current.onOrExpression11(c, expr) (res, err)
+//@   ensures[C15] res == expr && err == nil
+//@   assigns nothing
+
+//@ func current.onOrExpression14(c, expr) (res, err)
+//@   ensures[C15] res == expr && err == nil
+//@   assigns nothing
+
+//@ func current.onAndExpression11(c, expr) (res, err)
+//@   ensures[C15] res == expr && err == nil
+//@   assigns nothing
+
+//@ func current.onNotExpression8(c, expr) (res, err)
+//@   ensures[C15] res == expr && err == nil
+//@   assigns nothing
+
+//@ func current.onParenthesizedExpression2(c, expr) (res, err)
+//@   ensures[C15] res == expr && err == nil
+//@   assigns nothing
+
+//@ func current.onParenthesizedExpression12(c, expr) (res, err)
+//@   ensures[C15] res == expr && err == nil
+//@   assigns nothing
+
+//@ func current.onSelectorOrIndex2(c, ident) (res, err)
+//@   ensures[C15] res == ident && err == nil
+//@   assigns nothing
+
+//@ func current.onSelectorOrIndex7(c, expr) (res, err)
+//@   ensures[C15] res == expr && err == nil
+//@   assigns nothing
+
+//@ func current.onIndexExpression2(c, lit) (res, err)
+//@   ensures[C15] res == lit && err == nil
+//@   assigns nothing
+
+//@ func current.onOrExpression2(c, left, right) (res, err)
+//@   requires is[Expression](left) && is[Expression](right)
+//@   ensures[C15,C16] err == nil && is[*BinaryExpression](res) && unbox[*BinaryExpression](res) != nil
+//@   ensures[C15,C16] unbox[*BinaryExpression](res).Operator == BinaryOpOr && unbox[*BinaryExpression](res).Left == left && unbox[*BinaryExpression](res).Right == right
+//@   assigns nothing
+
+//@ func current.onAndExpression2(c, left, right) (res, err)
+//@   requires is[Expression](left) && is[Expression](right)
+//@   ensures[C15,C16] err == nil && is[*BinaryExpression](res) && unbox[*BinaryExpression](res) != nil
+//@   ensures[C15,C16] unbox[*BinaryExpression](res).Operator == BinaryOpAnd && unbox[*BinaryExpression](res).Left == left && unbox[*BinaryExpression](res).Right == right
+//@   assigns nothing
+
+//@ func current.onNotExpression2(c, expr) (res, err)
+//@   requires is[Expression](expr) && (is[*UnaryExpression](expr) ==> unbox[*UnaryExpression](expr) != nil)
+//@   ensures[C15,C16] err == nil
+//@   ensures[C16] double_negation: is[*UnaryExpression](expr) && unbox[*UnaryExpression](expr).Operator == UnaryOpNot ==> res == unbox[*UnaryExpression](expr).Operand
+//@   ensures[C15,C16] negation: !(is[*UnaryExpression](expr) && unbox[*UnaryExpression](expr).Operator == UnaryOpNot) ==> is[*UnaryExpression](res) && unbox[*UnaryExpression](res) != nil && unbox[*UnaryExpression](res).Operator == UnaryOpNot && unbox[*UnaryExpression](res).Operand == expr
+//@   assigns nothing
+
+//@ func current.onCollectionExpression1(c, op, selector, binding, expr) (res, err)
+//@   requires is[CollectionOperator](op) && is[Selector](selector) && is[CollectionNameBinding](binding) && is[Expression](expr)
+//@   ensures[C15] err == nil && is[*CollectionExpression](res) && unbox[*CollectionExpression](res) != nil
+//@   ensures[C15] unbox[*CollectionExpression](res).Op == unbox[CollectionOperator](op) && unbox[*CollectionExpression](res).Selector == unbox[Selector](selector) && unbox[*CollectionExpression](res).NameBinding == unbox[CollectionNameBinding](binding) && unbox[*CollectionExpression](res).Inner == expr
+//@   assigns nothing
+
+//@ func current.onCollectionIdentifiers2(c, id1, id2) (res, err)
+//@   requires is[string](id1) && is[string](id2)
+//@   ensures[C15] err == nil && is[CollectionNameBinding](res)
+//@   ensures[C15] unbox[CollectionNameBinding](res).Mode == CollectionBindIndexAndValue && unbox[CollectionNameBinding](res).Index == unbox[string](id1) && unbox[CollectionNameBinding](res).Value == unbox[string](id2) && unbox[CollectionNameBinding](res).Default == ""
+//@   assigns nothing
+
+//@ func current.onCollectionIdentifiers13(c, id1) (res, err)
+//@   requires is[string](id1)
+//@   ensures[C15] err == nil && is[CollectionNameBinding](res)
+//@   ensures[C15] unbox[CollectionNameBinding](res).Mode == CollectionBindIndex && unbox[CollectionNameBinding](res).Index == unbox[string](id1) && unbox[CollectionNameBinding](res).Value == "" && unbox[CollectionNameBinding](res).Default == ""
+//@   assigns nothing
+
+//@ func current.onCollectionIdentifiers23(c, id2) (res, err)
+//@   requires is[string](id2)
+//@   ensures[C15] err == nil && is[CollectionNameBinding](res)
+//@   ensures[C15] unbox[CollectionNameBinding](res).Mode == CollectionBindValue && unbox[CollectionNameBinding](res).Value == unbox[string](id2) && unbox[CollectionNameBinding](res).Index == "" && unbox[CollectionNameBinding](res).Default == ""
+//@   assigns nothing
+
+//@ func current.onCollectionIdentifiers33(c, id) (res, err)
+//@   requires is[string](id)
+//@   ensures[C15] err == nil && is[CollectionNameBinding](res)
+//@   ensures[C15] unbox[CollectionNameBinding](res).Mode == CollectionBindDefault && unbox[CollectionNameBinding](res).Default == unbox[string](id) && unbox[CollectionNameBinding](res).Index == "" && unbox[CollectionNameBinding](res).Value == ""
+//@   assigns nothing
+
+//@ func current.onCollectionOpAny1(c) (res, err)
+//@   ensures[C15] err == nil && is[CollectionOperator](res) && unbox[CollectionOperator](res) == CollectionOpAny
+//@   assigns nothing
+
+//@ func current.onCollectionOpAll1(c) (res, err)
+//@   ensures[C15] err == nil && is[CollectionOperator](res) && unbox[CollectionOperator](res) == CollectionOpAll
+//@   assigns nothing
+
+//@ func current.onParenthesizedExpression24(c) (ok, err)
+//@   ensures[C15] errprod: !ok && err != nil
+//@   assigns nothing
+
+//@ func current.onIndexExpression18(c) (ok, err)
+//@   ensures[C15] errprod: !ok && err != nil
+//@   assigns nothing
+
+//@ func current.onIndexExpression28(c) (ok, err)
+//@   ensures[C15] errprod: !ok && err != nil
+//@   assigns nothing
+
+//@ func current.onNumberLiteral15(c) (ok, err)
+//@   ensures[C15] errprod: !ok && err != nil
+//@   assigns nothing
+
+//@ func current.onStringLiteral25(c) (ok, err)
+//@   ensures[C15] errprod: !ok && err != nil
+//@   assigns nothing
+
+//@ func current.onMatchValueOpSelector20(c, operator) (ok, err)
+//@   ensures[C15] errprod: !ok && err != nil
+//@   assigns nothing
+
+//@ func current.onMatchSelectorOpValue1(c, selector, operator, value) (res, err)
+//@   requires is[Selector](selector) && is[MatchOperator](operator) && is[*MatchValue](value)
+//@   ensures[C15] err == nil && is[*MatchExpression](res) && unbox[*MatchExpression](res) != nil
+//@   ensures[C15] unbox[*MatchExpression](res).Selector == unbox[Selector](selector) && unbox[*MatchExpression](res).Operator == unbox[MatchOperator](operator) && unbox[*MatchExpression](res).Value == unbox[*MatchValue](value)
+//@   assigns nothing
+
+//@ func current.onMatchSelectorOp1(c, selector, operator) (res, err)
+//@   requires is[Selector](selector) && is[MatchOperator](operator)
+//@   ensures[C15] err == nil && is[*MatchExpression](res) && unbox[*MatchExpression](res) != nil
+//@   ensures[C15] unbox[*MatchExpression](res).Selector == unbox[Selector](selector) && unbox[*MatchExpression](res).Operator == unbox[MatchOperator](operator) && unbox[*MatchExpression](res).Value == nil
+//@   assigns nothing
+
+//@ func current.onMatchValueOpSelector2(c, value, operator, selector) (res, err)
+//@   requires is[Selector](selector) && is[MatchOperator](operator) && is[*MatchValue](value)
+//@   ensures[C15] err == nil && is[*MatchExpression](res) && unbox[*MatchExpression](res) != nil
+//@   ensures[C15] unbox[*MatchExpression](res).Selector == unbox[Selector](selector) && unbox[*MatchExpression](res).Operator == unbox[MatchOperator](operator) && unbox[*MatchExpression](res).Value == unbox[*MatchValue](value)
+//@   assigns nothing
+
+//@ func current.onMatchEqual1(c) (res, err)
+//@   ensures[C15] err == nil && is[MatchOperator](res) && unbox[MatchOperator](res) == MatchEqual
+//@   assigns nothing
+
+//@ func current.onMatchNotEqual1(c) (res, err)
+//@   ensures[C15] err == nil && is[MatchOperator](res) && unbox[MatchOperator](res) == MatchNotEqual
+//@   assigns nothing
+
+//@ func current.onMatchIsEmpty1(c) (res, err)
+//@   ensures[C15] err == nil && is[MatchOperator](res) && unbox[MatchOperator](res) == MatchIsEmpty
+//@   assigns nothing
+
+//@ func current.onMatchIsNotEmpty1(c) (res, err)
+//@   ensures[C15] err == nil && is[MatchOperator](res) && unbox[MatchOperator](res) == MatchIsNotEmpty
+//@   assigns nothing
+
+//@ func current.onMatchIn1(c) (res, err)
+//@   ensures[C15,C04] err == nil && is[MatchOperator](res) && unbox[MatchOperator](res) == MatchIn
+//@   assigns nothing
+
+//@ func current.onMatchNotIn1(c) (res, err)
+//@   ensures[C15,C04] err == nil && is[MatchOperator](res) && unbox[MatchOperator](res) == MatchNotIn
+//@   assigns nothing
+
+//@ func current.onMatchContains1(c) (res, err)
+//@   ensures[C15,C04] err == nil && is[MatchOperator](res) && unbox[MatchOperator](res) == MatchIn
+//@   assigns nothing
+
+//@ func current.onMatchNotContains1(c) (res, err)
+//@   ensures[C15,C04] err == nil && is[MatchOperator](res) && unbox[MatchOperator](res) == MatchNotIn
+//@   assigns nothing
+
+//@ func current.onMatchMatches1(c) (res, err)
+//@   ensures[C15] err == nil && is[MatchOperator](res) && unbox[MatchOperator](res) == MatchMatches
+//@   assigns nothing
+
+//@ func current.onMatchNotMatches1(c) (res, err)
+//@   ensures[C15] err == nil && is[MatchOperator](res) && unbox[MatchOperator](res) == MatchNotMatches
+//@   assigns nothing
+
+//@ func current.onIdentifier1(c) (res, err)
+//@   requires c != nil
+//@   ensures[C15,C07] err == nil && res == box[string](s.ofbytes(c.text))
+//@   assigns nothing
+
+//@ func current.onNumberLiteral2(c) (res, err)
+//@   requires c != nil
+//@   ensures[C15,C16] err == nil && res == box[string](s.ofbytes(c.text))
+//@   assigns nothing
+
+//@ func current.onJsonPointerSegment1(c, ident) (res, err)
+//@   requires c != nil
+//@   requires len(c.text) >= 1
+//@   ensures[C15,C07] err == nil && res == box[string](s.sub(s.ofbytes(c.text), 1, len(c.text)))
+//@   assigns nothing
+
+//@ func current.onSelectorOrIndex10(c, idx) (res, err)
+//@   requires c != nil
+//@   requires len(c.text) >= 1
+//@   ensures[C15,C07] err == nil && res == box[string](s.sub(s.ofbytes(c.text), 1, len(c.text)))
+//@   assigns nothing
+
+//@ func current.onStringLiteral2(c) (res, err)
+//@   requires c != nil
+//@   ensures[C15,C16] (err == nil) == okUnquote(s.ofbytes(c.text))
+//@   ensures[C16] fidelity: err == nil ==> res == box[string](specUnquote(s.ofbytes(c.text)))
+//@   assigns nothing
+
+//@ func current.onValue5(c, n) (res, err)
+//@   requires is[string](n)
+//@   ensures[C15,C16] err == nil && is[*MatchValue](res) && unbox[*MatchValue](res) != nil && unbox[*MatchValue](res).Raw == unbox[string](n) && unbox[*MatchValue](res).Converted == nil
+//@   assigns nothing
+
+//@ func current.onValue8(c, s) (res, err)
+//@   requires is[string](s)
+//@   ensures[C15,C16] err == nil && is[*MatchValue](res) && unbox[*MatchValue](res) != nil && unbox[*MatchValue](res).Raw == unbox[string](s) && unbox[*MatchValue](res).Converted == nil
+//@   assigns nothing
+
+//@ func current.onValue2(c, selector) (res, err)
+//@   requires c != nil
+//@   requires is[Selector](selector) && (unbox[Selector](selector).Type == SelectorTypeJsonPointer ==> len(c.text) >= 2)
+//@   ensures[C15,C16] err == nil && is[*MatchValue](res) && unbox[*MatchValue](res) != nil && unbox[*MatchValue](res).Converted == nil
+//@   ensures[C16] literal_fidelity: unbox[Selector](selector).Type == SelectorTypeJsonPointer ==> unbox[*MatchValue](res).Raw == s.ofbytes(c.text[1:len(c.text)-1])
+//@   ensures[C15] bare: unbox[Selector](selector).Type != SelectorTypeJsonPointer ==> unbox[*MatchValue](res).Raw == str.grammar.Selector.String(unbox[Selector](selector))
+//@   assigns nothing
+
+//@ func current.onSelector2(c, first, rest) (res, err)
+//@   requires is[string](first) && (rest != nil ==> is[[]any](rest) && allStrings(unbox[[]any](rest)))
+//@   ensures[C15,C07] err == nil && is[Selector](res) && unbox[Selector](res).Type == SelectorTypeBexpr
+//@   ensures[C15,C07] path: unbox[Selector](res).Path == snoc(zero[[]string], unbox[string](first)) ++ ite(rest == nil, zero[[]string], strsOf(unbox[[]any](rest)))
+//@   assigns nothing
+//@   loop 1:
+//@     invariant -1 <= rangeindex && rangeindex < len(rangeslice) && rangeslice == unbox[[]any](rest) && sel.Type == SelectorTypeBexpr
+//@     invariant[C15,C07] sel.Path == snoc(zero[[]string], unbox[string](first)) ++ strsOf(rangeslice[0:rangeindex+1])
+
+//@ func current.onSelector9(c, ptrsegs) (res, err)
+//@   requires ptrsegs != nil ==> is[[]any](ptrsegs) && allStrings(unbox[[]any](ptrsegs))
+//@   ensures[C15,C07] ok: (err == nil) == psParseOK(s.slash ++ strJoin(ite(ptrsegs == nil, zero[[]string], strsOf(unbox[[]any](ptrsegs))), s.slash))
+//@   ensures[C15,C07] path: err == nil ==> is[Selector](res) && unbox[Selector](res).Type == SelectorTypeJsonPointer && unbox[Selector](res).Path == psParts(s.slash ++ strJoin(ite(ptrsegs == nil, zero[[]string], strsOf(unbox[[]any](ptrsegs))), s.slash))
+//@   ensures[C15] err != nil ==> res == nil
+//@   assigns nothing
+//@   loop 1:
+//@     invariant -1 <= rangeindex && rangeindex < len(rangeslice) && rangeslice == unbox[[]any](ptrsegs) && sel.Type == SelectorTypeJsonPointer
+//@     invariant[C15,C07] sel.Path == strsOf(rangeslice[0:rangeindex+1])
